@@ -147,6 +147,8 @@ struct Progress
     volatile long step;
     volatile long h;
     volatile long v;
+    volatile long na;
+    volatile long a[8];
     char opname[32];
 };
 
@@ -933,11 +935,14 @@ struct Driver
             ++step;
             prog->step = step;
             prog->v = op.v;
+            prog->na = static_cast<long>(op.a.size() > 8 ? 8 : op.a.size());
+            for (long q = 0; q < prog->na; ++q) prog->a[q] = op.a[static_cast<std::size_t>(q)];
             std::strncpy(prog->opname, op.n.c_str(), sizeof(prog->opname) - 1);
             if (!run_op(op)) break;
         }
         prog->step = step + 1;
         prog->v = 0;
+        prog->na = 0;
         std::strncpy(prog->opname, "finish", sizeof(prog->opname) - 1);
         finish();
     }
@@ -1136,7 +1141,11 @@ int driver_main(int argc, char** argv)
             }
             ++crashes;
             out.line("{\"e\":\"crash\",\"h\":" + std::to_string(prog->h) + ",\"s\":" + std::to_string(prog->step) +
-                     ",\"n\":\"" + std::string(prog->opname) + "\",\"v\":" + std::to_string(prog->v) + "," + cls + "}");
+                     ",\"n\":\"" + std::string(prog->opname) + "\",\"v\":" + std::to_string(prog->v) + ",\"a\":[" + [&] {
+                         std::string as;
+                         for (long q = 0; q < prog->na; ++q) as += (q ? "," : "") + std::to_string(prog->a[q]);
+                         return as;
+                     }() + "]," + cls + "}");
             next = static_cast<std::size_t>(prog->hist_index) + 1;
         }
     }
